@@ -46,6 +46,10 @@ func c18Check(c c18Case) vfResult {
 			r.Err = fmt.Errorf("%s archive written by archive/tar is reported as %s at limit %d; first block %s", c.Format, vfChainStr(m), lim, vfQ(a[:512]))
 			return r
 		}
+		if err := vfRoutes(a, lim, m); err != nil {
+			r.Err = fmt.Errorf("%s archive at limit %d: %v; first block %s", c.Format, lim, err, vfQ(a[:512]))
+			return r
+		}
 	}
 	high := false
 	for _, b := range a[:512] {
